@@ -66,7 +66,7 @@ var (
 	probeOrigins   = []string{"http://a.example", "https://b.example:8443", "http://c.example", "http://z.example"}
 	nameUniverse   = []string{"c1", "myCookie", ""}
 	probeNames     = []string{"mercureAuthorization", "c1", "myCookie", "other"}
-	durUniverse    = []string{"5s", "1m", "250ms", "90s"}
+	durUniverse    = []string{"5s", "1m", "250ms", "90s", "0"} // an explicit zero disables the timer: it is not "unset"
 )
 
 // independent of the hub: which algorithm / key pairs are usable, which origins are well-formed
@@ -290,6 +290,30 @@ func genLegacy(r *hx.Rng) *legacy {
 	return l
 }
 
+// keyArg: one key argument in three is written as an environment placeholder that expands to the key (an unset variable
+// for the empty key): the module must judge the expanded value
+func keyArg(idx, pos int, k string) string {
+	if (idx+pos)%3 != 0 || k == k4 {
+		return k
+	}
+	for i, u := range keyUniverse {
+		if u == k {
+			return fmt.Sprintf("{env.VERIF_C19_K%d}", i)
+		}
+	}
+	return k
+}
+
+func setKeyEnv() {
+	for i, u := range keyUniverse {
+		if u == "" {
+			os.Unsetenv(fmt.Sprintf("VERIF_C19_K%d", i))
+		} else {
+			os.Setenv(fmt.Sprintf("VERIF_C19_K%d", i), u)
+		}
+	}
+}
+
 func quote(s string) string { return `"` + strings.ReplaceAll(s, `"`, `\"`) + `"` }
 
 func renderCaddyfile(in *input, work string, idx int) string {
@@ -313,7 +337,10 @@ func renderCaddyfile(in *input, work string, idx int) string {
 			continue
 		}
 		b.WriteString("  " + d.Kind)
-		for _, a := range d.Args {
+		for ai, a := range d.Args {
+			if ai == 0 && (d.Kind == "publisher_jwt" || d.Kind == "subscriber_jwt") {
+				a = keyArg(idx, len(b.String()), a)
+			}
 			b.WriteString(" " + quote(a))
 		}
 		b.WriteString("\n")
@@ -372,10 +399,10 @@ func provision(in *input, work string, idx int) (p *provisioned, err error) {
 			o["subscriptions"] = true
 		}
 		if f.Pub != nil {
-			o["publisher_jwt"] = map[string]string{"key": f.Pub[0], "alg": f.Pub[1]}
+			o["publisher_jwt"] = map[string]string{"key": keyArg(idx, 0, f.Pub[0]), "alg": f.Pub[1]}
 		}
 		if f.Sub != nil {
-			o["subscriber_jwt"] = map[string]string{"key": f.Sub[0], "alg": f.Sub[1]}
+			o["subscriber_jwt"] = map[string]string{"key": keyArg(idx, 1, f.Sub[0]), "alg": f.Sub[1]}
 		}
 		if f.PublishOrigins != nil {
 			o["publish_origins"] = f.PublishOrigins
@@ -700,6 +727,7 @@ func runC19(a args) error {
 		return err
 	}
 	os.Unsetenv("MERCURE_TRANSPORT_URL")
+	setKeyEnv()
 	devnull, _ := os.OpenFile(os.DevNull, os.O_WRONLY, 0)
 	realStderr := os.Stderr
 	os.Stderr = devnull // caddy's and zap's default loggers
